@@ -26,7 +26,7 @@ prop('C01',
      rule=('generated: struct shapes (1..7 fields per struct, value embedding to depth 4, pointer embedding, nested named structs, embedded non-struct named types, exported/unexported names colliding across depths, hseq tags with keys / empty keys / options / keys colliding with other field names) '
            'and for every focusable field (reached without crossing a pointer) a derivation by name and by type through ForProduct1/ForSpectrum1, plus N-ary derivations ForProductN/ForSpectrumN for drawn N in 2..9 by names in drawn order (same-typed fields preferred so a positional slip passes the type guard) and by types; '
            'each returned optic is exercised with drawn field contents and drawn values inside a canary-guarded arena whose EVERY leaf is filled: oracle = Get equals the bytes at the compiler-computed address; after Put the byte image of the arena (struct, padding, both canary zones, pointees) equals the old image with exactly the focus replaced by the new value; returned pointer identical; GetPut, PutGet, PutPut on images; same through Gett/Putt; '
-           ' Second tier (E2): struct shapes that exist only at run time (reflect.StructOf: 1..6 fields per struct, value/pointer embedding to depth 4, unexported names, tags) unfolded by the real unfold through the verif-tagged hook hseq.VerifUnfold and focused with optics.NewLens/NewReflector[Blob, A] for A over a static universe of 47 types; oracle: reflect\'s own addressing (FieldByIndex) for listing offsets and field memory, every OTHER focus type of the universe must be refused for the focused field, byte image of a canary-guarded arena for Put. fixed cases add instantiations of a generic container (ut.Box[int8] / ut.Box[string] unfolded alternately, ut.Wrap[int64] embedding ut.Box[int64]; another instantiation requested as focus must be refused); a separate part (race detector on) derives listings, lenses and reflectors of plain, namesake and generic containers from 2..8 goroutines at once and uses them; non-trivial = shape with >= 3 listed entries and a focus that is not the first entry or lies inside an embedded struct; distinct = different (shape, request)'),
+           ' Second tier (E2): struct shapes that exist only at run time (reflect.StructOf: 1..6 fields per struct, value/pointer embedding to depth 4, unexported names, tags) unfolded by the real unfold through the verif-tagged hook hseq.VerifUnfold and focused with optics.NewLens/NewReflector[Blob, A] for A over a static universe of 47 types; oracle: reflect\'s own addressing (FieldByIndex) for listing offsets and field memory, every OTHER focus type of the universe must be refused for the focused field, byte image of a canary-guarded arena for Put. fixed cases add instantiations of a generic container (ut.Box[int8] / ut.Box[string] unfolded alternately, ut.Wrap[int64] embedding ut.Box[int64]; another instantiation requested as focus must be refused); a separate part (race detector on) derives listings, lenses and reflectors of plain, namesake and generic containers from 2..8 goroutines at once and uses them; one shape in twenty has a 72 KB array as its first member (fields beyond 64 KiB), another one in twenty 64-70 small fields in front and a pointer-embedded struct at the end (listing positions beyond 63); non-trivial = shape with >= 3 listed entries and a focus that is not the first entry or lies inside an embedded struct; distinct = different (shape, request)'),
      assumptions=E1_ASSUME,
      parts=[
          dict(name='parallel', engine='E1', pkg='optpar', test='TestPar', race=True, replay_test='TestReplayPar', env=dict(GORACE='halt_on_error=1'),
@@ -49,7 +49,7 @@ prop('C02',
            'too few names (literal, and with the missing names hidden behind the capacity of the slice passed), one bad component inside an N-ary request, container type parameter *S (by name and by type), a focus that lies behind an embedded pointer, names/types that occur at several depths, '
            'and a Reflector handed S by value, **S, nil, *A, unsafe.Pointer, uintptr, a pointer to a twin struct type with the identical layout, a pointer to an unrelated struct; oracle: the model verdict computed from the spec alone: "panic" = the derivation must panic; '
            '"focus" = must not panic and pass the C01 image check at the model focus; "panic or correct" (focus behind a pointer) = either panics at derivation or passes the image check through the pointer with the pointee observed too; wrong dynamic arguments must panic and leave the arena byte-identical; '
-           ' Second tier (E2): struct shapes that exist only at run time (reflect.StructOf: 1..6 fields per struct, value/pointer embedding to depth 4, unexported names, tags) unfolded by the real unfold through the verif-tagged hook hseq.VerifUnfold and focused with optics.NewLens/NewReflector[Blob, A] for A over a static universe of 47 types; oracle: reflect\'s own addressing (FieldByIndex) for listing offsets and field memory, every OTHER focus type of the universe must be refused for the focused field, byte image of a canary-guarded arena for Put. the same refusals are requested through ForShapeN (unknown name, near-miss type, too few names literally and behind the capacity) and BiMapS/B/I/F (wrong stored type of the same class, unknown name); field types include twins that print alike but differ (same package name, other import path: *ut.Pt vs *altut.Pt, []ut.MyStr); dynamic arguments of Gett/Putt include composites of the container type built by reflection ([]S, [1]S, *[1]S, map[string]S, chan S, []*S, func() *S); a function-local type declaration named like the package-level struct type of the field is requested by name and by type; non-trivial = verdict panic / panic-or-correct, or a focus chosen among >= 2 candidates; distinct = different (shape, request)'),
+           ' Second tier (E2): struct shapes that exist only at run time (reflect.StructOf: 1..6 fields per struct, value/pointer embedding to depth 4, unexported names, tags) unfolded by the real unfold through the verif-tagged hook hseq.VerifUnfold and focused with optics.NewLens/NewReflector[Blob, A] for A over a static universe of 47 types; oracle: reflect\'s own addressing (FieldByIndex) for listing offsets and field memory, every OTHER focus type of the universe must be refused for the focused field, byte image of a canary-guarded arena for Put. the same refusals are requested through ForShapeN (unknown name, near-miss type, too few names literally and behind the capacity) and BiMapS/B/I/F (wrong stored type of the same class, unknown name); field types include twins that print alike but differ (same package name, other import path: *ut.Pt vs *altut.Pt, []ut.MyStr); dynamic arguments of Gett/Putt include composites of the container type built by reflection ([]S, [1]S, *[1]S, map[string]S, chan S, []*S, func() *S); a function-local type declaration named like the package-level struct type of the field is requested by name and by type; one shape in twenty has a 72 KB array as its first member (fields beyond 64 KiB), another one in twenty 64-70 small fields in front and a pointer-embedded struct at the end (listing positions beyond 63); non-trivial = verdict panic / panic-or-correct, or a focus chosen among >= 2 candidates; distinct = different (shape, request)'),
      assumptions=E1_ASSUME,
      parts=[
          dict(name='shapes', engine='E1', kind='gen', gen='lens', pkg='gen', test='TestShapes',
@@ -456,7 +456,7 @@ prop('C19',
            'Head, Length, IsEmpty, Fold with (a*31+b) mod p from a non-neutral Empty) over a growing register file, register indices taken modulo the '
            'registers existing; executed in lock-step on list.Trait[int], slice.Trait[int] and a [][]int model; after EVERY step every register is '
            're-read through Head/Tail/IsEmpty on both implementations and compared with the model (persistence); '
-           '5% of the New operations use a window of a buffer with 1100..2500 spare elements, 5% more than 1024 elements; a separate part (race detector on) executes 2..8 independent scenarios in as many goroutines at once, each repeated 20-30 times: instances of their own share nothing; one scenario in sixty inserts a sequence whose length sits at a power of two (64..8192, -1/0/+1) and folds it four times; non-trivial = some Cons on a register of length >= 1 or Tail on a register of length >= 2 (so a register is re-read after being extended/cut); '
+           '5% of the New operations use a window of a buffer with 1100..2500 spare elements, 5% more than 1024 elements; a separate part (race detector on) executes 2..8 independent scenarios in as many goroutines at once, each repeated 20-30 times: instances of their own share nothing; one scenario in sixty inserts a sequence whose length sits at a power of two (64..32768, -1/0/+1) and folds it four times; non-trivial = some Cons on a register of length >= 1 or Tail on a register of length >= 2 (so a register is re-read after being extended/cut); '
            'distinct = different canonical script'),
      assumptions=['internal/seq is exercised as a staged copy of the working-tree sources under the import path github.com/fogfish/golem/seq',
                   'Head/Tail of an empty sequence are outside the statement and are not generated'],
